@@ -48,8 +48,10 @@ CLAIMED["C35"] = (
     "Proof that checkRuleHashesOfType returns true exactly when some declared value of the right length equals the hex digest under one of the "
     "configured algorithms (two nested search loops), that checkRuleHashes returns nil exactly when no hashes are declared or a declared value "
     "(algorithm prefix aside) equals the computed hash or passes checkRuleHashesOfType, and that UnprefixedHashes strips prefixes pointwise "
-    "without writing to the target (frame obligation; this exposed the alias defect repaired by commit d3f0bea). Kernel-only: "
-    "calculateAndCheckRuleHash / retrieveArtifacts (no rule hash written, outputs removed on failure) are not under contract yet.",
+    "without writing to the target (frame obligation; this exposed the alias defect repaired by commit d3f0bea). calculateAndCheckRuleHash "
+    "writes the rule-hash record only after checkRuleHashes ran and passed (or verification is off / new hashes were requested for an original "
+    "target) and fails the build on a mismatch; buildTarget marks a target built and stores it in the caches only after that check returned nil. "
+    "Kernel-only: retrieveArtifacts (outputs removed on a failed cache hit) is not under contract.",
     COMMON_NOTE + "outputHash is abstracted as an uninterpreted function of (target, outputs, hasher, combine): the file system is assumed not to "
     "change during one check; hex encoding and PathHasher.Size are uninterpreted pure functions.",
     "contract-based deductive verification (search-loop invariants, frame obligations + SMT)", "6/C35")
@@ -140,9 +142,13 @@ CLAIMED["C01"] = (
     "Proof of the decision kernels that make an incremental build skip a target: needsBuilding returns false ONLY IF the metadata file exists, "
     "the stored config, rule, source and secret hashes each equal the current ones (and the current ones could be computed), every declared "
     "output exists and no rebuild is forced — a path-sensitive postcondition over every path of the function; moveOutput reports an output as "
-    "unchanged only if a file with the same hash already exists at its real location. Kernel-only: equality of whole output trees over edit "
-    "histories quantifies over command execution and the file system and is not a contract; the rule/source hash functions themselves (C07-C09) "
-    "are not under contract yet.",
+    "unchanged only if a file with the same hash already exists at its real location; readRuleHashFromXattrs answers with a stored hash only if "
+    "EVERY output carries a record and all records agree (loop invariant over an equivalence axiom for bytes.Equal); sourceHash hashes contents, "
+    "never timestamps (call-site obligation); the filegroup builder makes the recorded hash of an output follow its source on every successful "
+    "path (ghost call flags); buildTarget declares a target reused only on a fresh negative needsBuilding answer (re-check after metadata was "
+    "re-applied for self-modifying targets); moveOutputs collects every declared and optional output. Kernel-only: equality of whole output "
+    "trees over edit histories quantifies over command execution and the file system and is not a contract; the rule hash function itself "
+    "(C07-C09) is not under contract.",
     COMMON_NOTE + "File-system, xattr and hash reads (FileExists, PathExists, readRuleHashFromXattrs, RuleHash, sourceHash, secretHash, "
     "PathHasher.Hash) are assumed functions of their arguments for the duration of one decision; RuleHash's memoisation is abstracted; "
     "bytes.Equal is uninterpreted.",
@@ -199,6 +205,19 @@ CLAIMED["C13"] = (
     "outside that region and a canary obligation keeps the region honest. Kernel-only: HTTP server and custom-command behaviour are outside.",
     COMMON_NOTE + "fs.Walk is an assumed iteration contract; storeFile (tar writing) is opaque; cancel is an opaque callback.",
     "contract-based deductive verification (tracked ghosts, return-site obligations, known-finding region + SMT)", "6/C13")
+
+CLAIMED["C32"] = (
+    "Proof of the ordering kernels that make a crash recoverable, as call-site obligations over ghost state recording the calls made so far and "
+    "their results: fs.WriteFile creates its temporary file beside the destination, touches only the temporary before the final rename, and "
+    "returns nil only after renameFile (which tries an atomic os.Rename first); StoreTargetMetadata removes the old metadata file (and with it "
+    "the old hash record) before creating the new one; buildTarget collects outputs only after the metadata was stored, records the rule hash "
+    "only after every output was collected (moveOutputs: ghost counter proves every declared and optional output went through moveOutput), "
+    "reaches the bare writeRuleHash only after a successful cache retrieve, and declares a target reused only on a fresh negative needsBuilding "
+    "answer; readRuleHashFromXattrs treats a half-updated set of hash records as no record. Kernel-only: the crash itself (SIGKILL at an "
+    "arbitrary instant, what the kernel leaves on disk) and the comparison of the recovery build with a clean build are outside any contract.",
+    COMMON_NOTE + "os.*, io.Copy, xattr and cache calls are opaque; the file system is not modelled — the obligations constrain the ORDER and "
+    "ARGUMENTS of effects, not their outcome; callees of buildTarget without contracts are opaque (opt inline=off).",
+    "contract-based deductive verification (ghost call history, call-site and return-site obligations, loop invariants + SMT)", "6/C32")
 
 NOT_APPLICABLE = {
     "C05": "liveness / whole-run exit status under all schedules: no per-call contract expresses it (safety fragment is under C04)",
